@@ -52,6 +52,16 @@ def LitObj.toObj : LitObj → Obj
   | .int n => .int n | .bool b => .bool b | .str s => .str s | .bytes s => .bytes s | .none => .none
   | .enum c i => .inst c i
 
+/-- What a name used in an annotation may be bound to (a module global or a builtin): a class of the
+universe, a NewType, an unsubscripted `typing` alias, `Any`, or an object outside the value
+universe (`opaque`, e.g. the builtin `TimeoutError`; only ever reached through a shadowed builtin). -/
+inductive NameTarget where
+  | cls (c : Cls) | newtype (n : Nat) (c : Cls) | bare (c : Cls) | anyT | opaque (k : Nat)
+  deriving DecidableEq, Repr, Inhabited
+
+/-- name lookup: the object a name is bound to, `none` = undefined -/
+abbrev Lookup := Nat → Option NameTarget
+
 /-- Annotation expression syntax. `old` = the `typing` alias spelling (`List[int]`, `Tuple[...]`,
 `Type[...]`), otherwise the builtin / `collections.abc` class is subscripted. -/
 inductive AnnExpr where
@@ -75,6 +85,7 @@ inductive AnnExpr where
   | union (es : List AnnExpr)                       -- `Union[e₁, …]`
   | bor (a b : AnnExpr)                             -- `a | b`
   | str (e : AnnExpr)                               -- `'e'` (a string / forward reference)
+  | name (n : Nat)                                  -- a name looked up in an environment (`Lookup`)
   deriving Repr, Inhabited
 
 /-- The outcome of evaluating an annotation: the value, the number of errors shown, and whether the
@@ -96,6 +107,14 @@ def rtCls (c : Cls) : Ty := if c == C.none then .known .none else .typed c
 `get_args` is `()`, so `_value_of_origin_args` :1150‥1192 runs with no arguments — `typing.Type` →
 `TypedValue(type)`, **`typing.Tuple` → `SequenceValue(tuple, [])`** (:1155), others → the class. -/
 def rtBare (c : Cls) : Ty := if c == C.tuple then .seq C.tuple [] else rtCls c
+
+/-- `_type_from_runtime` on the object a name is bound to -/
+def NameTarget.ty : NameTarget → Ty
+  | .cls c => rtCls c
+  | .newtype n c => .newtype n c
+  | .bare c => rtBare c
+  | .anyT => .any
+  | .opaque k => .typed (1000 + k)
 
 /-- `UnpackedValue.get_elements` (value.py:2663) followed by the fallback of
 `_make_sequence_value` :1294 (`elements is None` → one error, `[(True, Any)]`). -/
@@ -158,53 +177,57 @@ end
 /-! ## The AST / string route -/
 mutual
 /-- `_type_from_ast(node, ctx, allow_unpack=au)`. -/
-def astEval (au : Bool) : AnnExpr → Option Res
+def astEval (look : Lookup) (au : Bool) : AnnExpr → Option Res
   | .cls c => ok (rtCls c)                     -- visit_Name → KnownValue(cls) → _type_from_runtime
   | .none => ok (.known .none)                  -- visit_Constant → KnownValue(None) → :473
   | .anyT => ok .any
   | .newtype n c => ok (.newtype n c)
   | .bare c => ok (rtBare c)
   | .gen _ c args =>                            -- :864 `isinstance(root, type)` / :867 `get_origin(root)`
-    (astEvalL args).map fun (ts, n) => ⟨.generic c ts, n, false⟩
+    (astEvalL look args).map fun (ts, n) => ⟨.generic c ts, n, false⟩
   | .tup _ ms =>                                -- :775 `_is_tuple(root)`, last branch
-    (astEvalM ms).map fun rs => ⟨.seq C.tuple (seqMembers rs).1, (seqMembers rs).2, false⟩
+    (astEvalM look ms).map fun rs => ⟨.seq C.tuple (seqMembers rs).1, (seqMembers rs).2, false⟩
   | .tupE _ => ok (.seq C.tuple [])             -- members = () → `_make_sequence_value(tuple, [])`
   | .tupV _ e =>                                -- :776 members[1] == KnownValue(Ellipsis)
-    (astEval false e).map fun r => ⟨.generic C.tuple [r.ty], r.errs, false⟩
+    (astEval look false e).map fun r => ⟨.generic C.tuple [r.ty], r.errs, false⟩
   | .unpack e =>                                -- :844
-    if au then (astEval false e).map fun r => ⟨r.ty, r.errs, true⟩
+    if au then (astEval look false e).map fun r => ⟨r.ty, r.errs, true⟩
     else if e.starU then none else errAny
   | .star _ => none                             -- `_Visitor.generic_visit` :970 raises
   | .lit os => ok (unite (os.map fun o => .known o.toObj))   -- :769 all members are KnownValue
   | .typ _ e =>                                 -- :791
-    (astEval false e).map fun r => ⟨mkSub r.ty, r.errs, false⟩
+    (astEval look false e).map fun r => ⟨mkSub r.ty, r.errs, false⟩
   | .ann e k =>                                 -- :797 `_make_annotated(_type_from_value(origin, ctx), …)`
-    (astEval false e).map fun r => ⟨annotateK k r.ty, r.errs, false⟩
+    (astEval look false e).map fun r => ⟨annotateK k r.ty, r.errs, false⟩
   | .final e =>                                 -- :814 `return _type_from_value(members[0], ctx)`
-    (astEval false e).map fun r => ⟨r.ty, r.errs, false⟩
+    (astEval look false e).map fun r => ⟨r.ty, r.errs, false⟩
   | .classVar e =>                              -- :820
-    (astEval false e).map fun r => ⟨r.ty, r.errs, false⟩
+    (astEval look false e).map fun r => ⟨r.ty, r.errs, false⟩
   | .opt e =>                                   -- :786 `unite_values(KnownValue(None), …)`
-    (astEval false e).map fun r => ⟨unite [.known .none, r.ty], r.errs, false⟩
+    (astEval look false e).map fun r => ⟨unite [.known .none, r.ty], r.errs, false⟩
   | .union es =>                                -- :767
-    (astEvalL es).map fun (ts, n) => ⟨unite ts, n, false⟩
+    (astEvalL look es).map fun (ts, n) => ⟨unite ts, n, false⟩
   | .bor a b =>                                 -- visit_BinOp :1025 → `_SubscriptedValue(KnownValue(Union), (l, r))`
-    match astEval false a, astEval false b with
+    match astEval look false a, astEval look false b with
     | some ra, some rb => some ⟨unite [ra.ty, rb.ty], ra.errs + rb.errs, false⟩
     | _, _ => none
-  | .str e => astEval au e                      -- :405 → `_eval_forward_ref` → `_type_from_ast`
+  | .str e => astEval look au e                 -- :405 → `_eval_forward_ref` → `_type_from_ast`
+  | .name n =>                                  -- visit_Name :973 → `ctx.get_name(node)`
+    match look n with
+    | some t => ok t.ty
+    | none => errAny                            -- "Undefined name … used in annotation", Any[error]
 /-- arguments evaluated with `_type_from_value(member, ctx)` (no `allow_unpack`) -/
-def astEvalL : List AnnExpr → Option (List Ty × Nat)
+def astEvalL (look : Lookup) : List AnnExpr → Option (List Ty × Nat)
   | [] => some ([], 0)
   | e :: es =>
-    match astEval false e, astEvalL es with
+    match astEval look false e, astEvalL look es with
     | some r, some (ts, n) => some (r.ty :: ts, r.errs + n)
     | _, _ => none
 /-- tuple members: `_type_from_value(arg, ctx, allow_unpack=True)` :783 -/
-def astEvalM : List AnnExpr → Option (List Res)
+def astEvalM (look : Lookup) : List AnnExpr → Option (List Res)
   | [] => some []
   | e :: es =>
-    match astEval true e, astEvalM es with
+    match astEval look true e, astEvalM look es with
     | some r, some rs => some (r :: rs)
     | _, _ => none
 end
@@ -212,54 +235,138 @@ end
 /-! ## The runtime-object route (on the object `typing` built: apply to `tnorm e`) -/
 mutual
 /-- `_type_from_runtime(val, ctx, allow_unpack=au)`. -/
-def rtEval (au : Bool) : AnnExpr → Option Res
+def rtEval (look : Lookup) (au : Bool) : AnnExpr → Option Res
   | .cls c => ok (rtCls c)
   | .none => ok (.known .none)
   | .anyT => ok .any
   | .newtype n c => ok (.newtype n c)
   | .bare c => ok (rtBare c)
   | .gen _ c args =>                            -- :1186 `isinstance(origin, type)`
-    (rtEvalL args).map fun (ts, n) => ⟨.generic c ts, n, false⟩
+    (rtEvalL look args).map fun (ts, n) => ⟨.generic c ts, n, false⟩
   | .tup _ ms =>                                -- :1162
-    (rtEvalM ms).map fun rs => ⟨.seq C.tuple (seqMembers rs).1, (seqMembers rs).2, false⟩
+    (rtEvalM look ms).map fun rs => ⟨.seq C.tuple (seqMembers rs).1, (seqMembers rs).2, false⟩
   | .tupE _ => ok (.seq C.tuple [])             -- :1155 `not args`
   | .tupV _ e =>                                -- :1157
-    (rtEval false e).map fun r => ⟨.generic C.tuple [r.ty], r.errs, false⟩
+    (rtEval look false e).map fun r => ⟨.generic C.tuple [r.ty], r.errs, false⟩
   | .unpack e =>                                -- :1253
-    if au then (rtEval false e).map fun r => ⟨r.ty, r.errs, true⟩ else errAny
+    if au then (rtEval look false e).map fun r => ⟨r.ty, r.errs, true⟩ else errAny
   | .star e =>                                  -- `*tuple[...]` is a GenericAlias whose origin is `tuple`:
-    (rtEval false e).map fun r => ⟨r.ty, r.errs, false⟩  --   read as a plain (nested) tuple, `__unpacked__` ignored
+    (rtEval look false e).map fun r => ⟨r.ty, r.errs, false⟩  --   read as a plain (nested) tuple, `__unpacked__` ignored
   | .lit os =>                                  -- :1193
     match os with
     | [o] => ok (.known o.toObj)
     | os => ok (unite (os.map fun o => .known o.toObj))
   | .typ _ e =>                                 -- :1150
-    (rtEval false e).map fun r => ⟨mkSub r.ty, r.errs, false⟩
+    (rtEval look false e).map fun r => ⟨mkSub r.ty, r.errs, false⟩
   | .ann e k =>                                 -- :1177 (passes `allow_unpack` down; an unpacked origin is unsupported)
-    (rtEval au e).map fun r => ⟨annotateK k r.ty, r.errs, false⟩
-  | .final e => (rtEval false e).map fun r => ⟨r.ty, r.errs, false⟩     -- :1212
-  | .classVar e => (rtEval false e).map fun r => ⟨r.ty, r.errs, false⟩  -- :1218
+    (rtEval look au e).map fun r => ⟨annotateK k r.ty, r.errs, false⟩
+  | .final e => (rtEval look false e).map fun r => ⟨r.ty, r.errs, false⟩     -- :1212
+  | .classVar e => (rtEval look false e).map fun r => ⟨r.ty, r.errs, false⟩  -- :1218
   | .opt e =>                                   -- not a runtime object (`tnorm` removes it); read as Union[e, None]
-    (rtEval false e).map fun r => ⟨unite [r.ty, .known .none], r.errs, false⟩
+    (rtEval look false e).map fun r => ⟨unite [r.ty, .known .none], r.errs, false⟩
   | .union es =>                                -- :1166 `is_union(origin)`
-    (rtEvalL es).map fun (ts, n) => ⟨unite ts, n, false⟩
+    (rtEvalL look es).map fun (ts, n) => ⟨unite ts, n, false⟩
   | .bor a b =>                                 -- not a runtime object; read as Union[a, b]
-    match rtEval false a, rtEval false b with
+    match rtEval look false a, rtEval look false b with
     | some ra, some rb => some ⟨unite [ra.ty, rb.ty], ra.errs + rb.errs, false⟩
     | _, _ => none
-  | .str e => astEval au e                      -- :405 str, :499 ForwardRef → `_eval_forward_ref`
-def rtEvalL : List AnnExpr → Option (List Ty × Nat)
+  | .str e => astEval look au e                 -- :405 str, :499 ForwardRef → `_eval_forward_ref`
+  | .name n =>                                  -- not a runtime object (Python has resolved it); read like the AST route
+    match look n with
+    | some t => ok t.ty
+    | none => errAny
+def rtEvalL (look : Lookup) : List AnnExpr → Option (List Ty × Nat)
   | [] => some ([], 0)
   | e :: es =>
-    match rtEval false e, rtEvalL es with
+    match rtEval look false e, rtEvalL look es with
     | some r, some (ts, n) => some (r.ty :: ts, r.errs + n)
     | _, _ => none
-def rtEvalM : List AnnExpr → Option (List Res)
+def rtEvalM (look : Lookup) : List AnnExpr → Option (List Res)
   | [] => some []
   | e :: es =>
-    match rtEval true e, rtEvalM es with
+    match rtEval look true e, rtEvalM look es with
     | some r, some rs => some (r :: rs)
     | _, _ => none
+end
+
+/-! ## Name resolution
+
+Three pieces of code look a name of an annotation up:
+
+* an annotation in checked source (quoted or not): `_DefaultContext.get_name` :910 with a visitor →
+  `NameCheckVisitor.resolve_name` (name_check_visitor.py:1663) → `StackedScopes.get_with_scope`,
+  which walks the scope stack from the innermost scope outwards — for a def at module level or
+  nested in a function that binds none of the names: the module scope, then the builtins scope;
+* a string annotation of a function object (`arg_spec.py:188 AnnotationsContext.get_name`,
+  `RuntimeEvaluator.get_name`): `Context.get_name_from_globals` :176 — `name in globals`, `elif
+  hasattr(builtins, name)`, else `handle_undefined_name`;
+* `type_from_ast` / `type_from_runtime` called with `globals=`: `_DefaultContext.get_name` :918 —
+  the same three steps written out again.
+
+Function-local names used in annotations are not modelled. -/
+
+def NameTarget.toAnn : NameTarget → AnnExpr
+  | .cls c => .cls c
+  | .newtype n c => .newtype n c
+  | .bare c => .bare c
+  | .anyT => .anyT
+  | .opaque k => .cls (1000 + k)
+
+abbrev Bindings := List (Nat × NameTarget)
+
+def Bindings.get (b : Bindings) (n : Nat) : Option NameTarget := (b.find? (·.1 == n)).map (·.2)
+def Bindings.has (b : Bindings) (n : Nat) : Bool := b.any (·.1 == n)
+
+/-- the names a module binds before the `def` statement is executed (`early`), the names it binds
+when it has been executed completely (`late`, what `f.__globals__` and the visitor's module scope
+hold), and the builtins -/
+structure NameEnv where
+  early : Bindings
+  late : Bindings
+  builtins : Bindings
+  deriving Repr, Inhabited
+
+/-- `StackedScopes.get_with_scope`: the innermost scope that binds the name -/
+def scopeLookup : List Bindings → Lookup
+  | [], _ => none
+  | s :: rest, n => if s.has n then s.get n else scopeLookup rest n
+
+/-- `NameCheckVisitor.resolve_name` for an annotation of a module-level / nested def -/
+def visLookup (env : NameEnv) : Lookup := scopeLookup [env.late, env.builtins]
+
+/-- `Context.get_name_from_globals` (annotations.py:176) with `globals = f.__globals__` -/
+def globalsLookup (env : NameEnv) : Lookup := fun n =>
+  if env.late.has n then env.late.get n
+  else if env.builtins.has n then env.builtins.get n
+  else none
+
+/-- `_DefaultContext.get_name` (annotations.py:918) without a visitor, `globals = f.__globals__` -/
+def defaultLookup (env : NameEnv) : Lookup := fun n =>
+  if env.late.has n then env.late.get n
+  else if env.builtins.has n then env.builtins.get n
+  else none
+
+mutual
+/-- evaluating the annotation *as an expression* replaces every name outside string constants by
+the object it is bound to (a name `look` does not bind stays: an undefined name) -/
+def resolveV (look : Lookup) : AnnExpr → AnnExpr
+  | .name n => match look n with | some t => t.toAnn | none => .name n
+  | .gen o c args => .gen o c (resolveVL look args)
+  | .tup o ms => .tup o (resolveVL look ms)
+  | .tupV o e => .tupV o (resolveV look e)
+  | .unpack e => .unpack (resolveV look e)
+  | .star e => .star (resolveV look e)
+  | .typ o e => .typ o (resolveV look e)
+  | .ann e k => .ann (resolveV look e) k
+  | .final e => .final (resolveV look e)
+  | .classVar e => .classVar (resolveV look e)
+  | .opt e => .opt (resolveV look e)
+  | .union es => .union (resolveVL look es)
+  | .bor a b => .bor (resolveV look a) (resolveV look b)
+  | e => e
+def resolveVL (look : Lookup) : List AnnExpr → List AnnExpr
+  | [] => []
+  | e :: es => resolveV look e :: resolveVL look es
 end
 
 def AnnExpr.isStar : AnnExpr → Bool
@@ -448,13 +555,13 @@ structure ISig where
 
 /-- `_get_type_for_parameter` (arg_spec.py:521) + the rest of `_make_sig_parameter` :471 (without
 the ParamSpec clauses); the kind is fixed up by `fromInspect`. -/
-def inspParam (methodOf : Option Cls) (idx : Nat) (p : IParam) : Option SigParam :=
+def inspParam (look : Lookup) (methodOf : Option Cls) (idx : Nat) (p : IParam) : Option SigParam :=
   let dflt : Option DVal := p.dflt.map fun
     | .lit o => .known o
     | .ellipsis => .knownEllipsis
   match p.ann with
   | some a =>
-    (rtEval (allowUnpackK p.kind) a).map fun r => ⟨p.name, p.kind, dflt, translateVararg p.kind r, r.errs⟩
+    (rtEval look (allowUnpackK p.kind) a).map fun r => ⟨p.name, p.kind, dflt, translateVararg p.kind r, r.errs⟩
   | none =>
     match idx, methodOf, p.kind with
     | 0, some c, .posOnly => some ⟨p.name, p.kind, dflt, .typed c, 0⟩
@@ -463,22 +570,22 @@ def inspParam (methodOf : Option Cls) (idx : Nat) (p : IParam) : Option SigParam
 
 /-- the loop of `from_signature` (arg_spec.py:440‥458): a positional-or-keyword parameter named
 `__x` becomes positional-only **and so does every parameter before it**. -/
-def inspLoop (methodOf : Option Cls) : Nat → List SigParam → List IParam → Option (List SigParam)
+def inspLoop (look : Lookup) (methodOf : Option Cls) : Nat → List SigParam → List IParam → Option (List SigParam)
   | _, acc, [] => some acc
   | idx, acc, p :: ps =>
-    match inspParam methodOf idx p with
+    match inspParam look methodOf idx p with
     | none => none
     | some sp =>
       if p.kind == .posOrKw && isDunderName p.name then
-        inspLoop methodOf (idx + 1) (acc.map (fun q => { q with kind := .posOnly }) ++ [{ sp with kind := .posOnly }]) ps
-      else inspLoop methodOf (idx + 1) (acc ++ [sp]) ps
+        inspLoop look methodOf (idx + 1) (acc.map (fun q => { q with kind := .posOnly }) ++ [{ sp with kind := .posOnly }]) ps
+      else inspLoop look methodOf (idx + 1) (acc ++ [sp]) ps
 
-def fromInspect (s : ISig) : Option SigOut :=
-  match inspLoop s.methodOf 0 [] s.params with
+def fromInspect (look : Lookup) (s : ISig) : Option SigOut :=
+  match inspLoop look s.methodOf 0 [] s.params with
   | none => none
   | some ps =>
     match s.returns with
     | none => some ⟨ps, .any, false, 0⟩
-    | some a => (rtEval false a).map fun r => ⟨ps, r.ty, true, r.errs⟩
+    | some a => (rtEval look false a).map fun r => ⟨ps, r.ty, true, r.errs⟩
 
 end Pya.C13
